@@ -37,6 +37,7 @@
 #define GS_KMAX 1        /* backslash-newline pairs in front of each logical character */
 #endif
 #define GS_PMAX (GS_LMAX * (2 * GS_KMAX + 1) + 2 * GS_KMAX)     /* physical bytes */
+_Static_assert(GS_PMAX <= G_IN_MAX, "ghost stream too small for the window: compile with -DG_IN_MAX=<n>");
 #ifndef GS_TABMAX
 #define GS_TABMAX GS_PMAX   /* line/column tables cover offsets 0..GS_TABMAX */
 #endif
@@ -211,6 +212,38 @@ nextchar_spec(struct scanner *s)
 	s->loc.line += k + (c == '\n');
 	s->loc.col = c == '\n' ? 0 : k > 0 ? 1 : s->loc.col + 1;
 }
+
+/* ---------------------------------------------------------------------------------------------------------------
+ * Allocation model for units that define GS_SMALL_TOKENS (compile with -DVERIF_OWN_XMALLOC so that stubs/base.c leaves
+ * the names free): the token window is far smaller than the initial capacity 256 of the spelling buffer, so the only
+ * allocation that can happen is the FIRST one (buffer never allocated before: 0 -> 256 bytes).  Growing an existing
+ * buffer is asserted unreachable (the obligation is discharged in every such unit); growth itself -- doubling, index
+ * < cap -- is SCAN.buf's and SCAN.nextchar's business.  Reason: the path merges inside scankind make buf.len symbolic,
+ * symbolic execution then explores realloc (allocate + copy a symbolic-size object) in every loop iteration: 8-11 M
+ * clauses for a 12-character identifier.
+ */
+#if defined(GS_SMALL_TOKENS) && !defined(VERIF_REPLAY)
+void *
+xmalloc(size_t n)
+{
+	void *p = malloc(n);
+	__CPROVER_assume(p != 0);
+	return p;
+}
+
+void *
+xreallocarray(void *buf, size_t n, size_t m)
+{
+	void *p;
+
+	__CPROVER_assert(buf == 0, "spelling buffer: an allocated buffer (capacity >= 256) does not grow for a token inside the window");
+	__CPROVER_assume(buf == 0);
+	__CPROVER_assert(n == (1 << 8) && m == 1, "spelling buffer: first allocation is 256 bytes");
+	p = malloc(1 << 8);
+	__CPROVER_assume(p != 0);
+	return p;
+}
+#endif
 
 /* ---------------------------------------------------------------------------------------------------------------
  * Second stand-in, for the leaf scanners (number, ident, comment, ...) that only ever call nextchar(): the same step
